@@ -184,6 +184,26 @@ Section Rec.
     apply ar1; [apply ar1; [exact (uapp_rect _ _ Ga E) | exact Ro] | exact (uapp_rect _ _ Gc E0)].
   Qed.
 
+  Lemma u_add_term_rect : forall k v (minus : bool) r,
+    unicode_guard k = true ->
+    (if num_is v 1 then rthen (uparen_lt rec k PREC_Add) (fun t => Ok (t, minus))
+     else if num_is v (-1) then rthen (uparen_lt rec k PREC_Mul) (fun t => Ok (t, true))
+     else
+       rthen (uparen_lt rec (ENum v) PREC_Mul) (fun t0 =>
+       rthen (uparen_lt rec k PREC_Mul) (fun rhs =>
+         Ok (fst (add_right (fst (add_right t0 mulbox0)) rhs),
+             if num_is_negative v then true else minus)))) = Ok r -> rect (fst r).
+  Proof.
+    intros k v minus r Gk H.
+    destruct (num_is v 1).
+    - rt H. apply Ok_inj' in H. rewrite <- H. cbn [fst]. exact (uparen_lt_rect _ _ _ Gk E).
+    - destruct (num_is v (-1)).
+      + rt H. apply Ok_inj' in H. rewrite <- H. cbn [fst]. exact (uparen_lt_rect _ _ _ Gk E).
+      + rt H. apply Ok_inj' in H. rewrite <- H. cbn [fst].
+        apply ar1; [apply ar1; [exact (uparen_lt_rect _ _ _ (guard_num v) E) | apply rect_box_w; reflexivity]
+                   | exact (uparen_lt_rect _ _ _ Gk E0)].
+  Qed.
+
   Lemma u_add_terms_rect : forall d box first minus b,
     forallb (fun p => unicode_guard (fst p)) d = true -> rect box ->
     u_add_terms rec box first minus d = Ok b -> rect b.
@@ -195,14 +215,7 @@ Section Rec.
       match type of H with
       | match ?r with _ => _ end = _ => destruct r as [[t minus1]| | |] eqn:Et; try discriminate
       end.
-      assert (Rt : rect t).
-      { destruct (num_is v 1).
-        - rt Et. injection Et as Ht Hm. subst t. exact (uparen_lt_rect _ _ _ Gk E).
-        - destruct (num_is v (-1)).
-          + rt Et. injection Et as Ht Hm. subst t. exact (uparen_lt_rect _ _ _ Gk E).
-          + rt Et. injection Et as Ht Hm. subst t.
-            apply ar1; [apply ar1; [exact (uparen_lt_rect _ _ _ (guard_num v) E) | apply rect_box_w; reflexivity]
-                       | exact (uparen_lt_rect _ _ _ Gk E0)]. }
+      pose proof (u_add_term_rect _ _ _ _ Gk Et) as Rt. cbn [fst] in Rt.
       assert (Rm : rect (box_s s_minus)) by (apply rect_box_s; reflexivity).
       assert (Rp : rect (box_s s_plus)) by (apply rect_box_s; reflexivity).
       destruct (negb first); [destruct minus1|]; (eapply IHd; [exact Gd | | exact H]); auto with rect.
@@ -237,7 +250,7 @@ Section Rec.
     forallb (fun p => unicode_guard (fst p)) d = true -> u_add rec c d = Ok b -> rect b.
   Proof.
     intros c d b G H. unfold u_add in H. pose proof (pmap_of_uguard _ G) as Gs.
-    destruct (negb (num_is c 0)); eapply u_add_terms_rect; eauto with rect.
+    destruct (negb (num_is c 0)); (eapply u_add_terms_rect; [exact Gs | | exact H]); auto with rect.
   Qed.
 
   Lemma u_mul_factors_rect : forall d box1 box2 mb f1 f2 num den box1' box2' mb' num' den',
@@ -247,25 +260,25 @@ Section Rec.
     rect box1' /\ rect box2' /\ rect mb'.
   Proof.
     induction d as [|[b x] d IHd]; intros box1 box2 mb f1 f2 num den box1' box2' mb' num' den' G R1 R2 Rm H;
-      simpl in H.
+      cbn [u_mul_factors] in H.
     - inv H. auto.
-    - simpl in G. apply andb_prop in G. destruct G as [Gbx Gd]. apply andb_prop in Gbx. destruct Gbx as [Gb Gx].
+    - cbn [forallb fst snd] in G. apply andb_prop in G. destruct G as [Gbx Gd]. apply andb_prop in Gbx. destruct Gbx as [Gb Gx].
       destruct (neg_rational_exp x) as [nx|].
       + destruct (if negb f2 then add_right box2 mb else (box2, mb)) as [box2a mb1] eqn:Ep.
         assert (Ra : rect box2a /\ rect mb1).
         { destruct (negb f2); [|inversion Ep; subst; split; assumption].
           pose proof (add_right_rect box2 mb R2 Rm) as [? ?]. rewrite Ep in *. split; assumption. }
         destruct Ra as [Ra Rm1]. rt H.
-        assert (rect s).
-        { destruct (num_is nx 1); [eapply uparen_lt_rect; eauto | eapply (u_pow_rect b (ENum nx)); eauto; apply guard_num]. }
+        assert (rect a).
+        { destruct (num_is nx 1); [exact (uparen_lt_rect _ _ _ Gb E) | exact (u_pow_rect _ _ _ Gb (guard_num nx) E)]. }
         eapply IHd; [exact Gd | exact R1 | | exact Rm1 | exact H]. auto with rect.
       + destruct (if negb f1 then add_right box1 mb else (box1, mb)) as [box1a mb1] eqn:Ep.
         assert (Ra : rect box1a /\ rect mb1).
         { destruct (negb f1); [|inversion Ep; subst; split; assumption].
           pose proof (add_right_rect box1 mb R1 Rm) as [? ?]. rewrite Ep in *. split; assumption. }
         destruct Ra as [Ra Rm1]. rt H.
-        assert (rect s).
-        { destruct (is_num_int x 1); [eapply uparen_lt_rect; eauto | eapply (u_pow_rect b x); eauto]. }
+        assert (rect a).
+        { destruct (is_num_int x 1); [exact (uparen_lt_rect _ _ _ Gb E) | exact (u_pow_rect _ _ _ Gb Gx E)]. }
         eapply IHd; [exact Gd | | exact R2 | exact Rm1 | exact H]. auto with rect.
   Qed.
 
